@@ -10,6 +10,7 @@ mod ops2;
 mod ops3;
 mod ops4;
 mod ops5;
+mod ops6;
 
 fn main() {
     std::panic::set_hook(Box::new(|_| {}));
